@@ -395,6 +395,10 @@ def fix_starred_imports(source: str) -> str:
         if node_names := {name for name in traced_names if trace_origin(name, node_source)}:
             starred_import_name_mapping[node].update(node_names)
 
+    if untraced_names:
+        # Names of unknown origin may come from any of the starred imports
+        return
+
     for node, names in starred_import_name_mapping.items():
         if names:
             yield node, ast.ImportFrom(
@@ -402,10 +406,6 @@ def fix_starred_imports(source: str) -> str:
                 names=[ast.alias(name=name, asname=None) for name in sorted(names)],
                 level=0,
             )
-
-    if untraced_names:
-        # Names of unknown origin may come from the remaining starred imports
-        return
 
     # Remove remaining starred imports
     for node in core.filter_nodes(root.body, template):
